@@ -178,6 +178,18 @@ def run(ctx: Ctx):
                  {"items": items, "path": "cat"})
             if wire is not None:
                 push({"k": "catwire", "items": items, "out": L(wire)}, {"items": items, "path": "catwire"})
+    # fold alignment: a line break, space, escape or multi-octet character at every column around the 75-octet fold of
+    # the serialised property (the value must come back through fold -> unfold -> split -> decode unchanged)
+    for chs in ([13], [32], [9], [92], [44], [59], [10], [13, 10], [0xE9], [0x1F600], [34], [58], [0x301]):
+        for n in range(52, 78) if not ctx.quick else range(56, 76):
+            codes = [120] * n + chs + [121, 122]
+            s = S(codes)
+            ctx.case(("align", tuple(chs), n), True)
+            ok, out, wire = rc.text_property(s)
+            push({"k": "prop", "s": codes, "ok": ok, "out": L(out) if ok else []}, {"s": codes, "path": "prop-align"})
+            items = [codes[:30], codes[30:]]
+            ok, out, wire = rc.cat_property([S(x) for x in items])
+            push({"k": "cat", "items": items, "ok": ok, "out": [L(x) for x in out] if ok else []}, {"items": items, "path": "cat-align"})
     ctx.sample({"trace_event": ev[-1]})
 
     # ------------------------------------------------------------- VALIDATE
